@@ -4,7 +4,7 @@ import "fmt"
 
 func init() {
 	generators["HIST"] = func(c *Ctx) { genHist(c, "") }
-	for _, id := range []string{"C05", "C06", "C07", "C08"} {
+	for _, id := range []string{"C05", "C06", "C07", "C08", "C09"} {
 		id := id
 		generators[id] = func(c *Ctx) { genHist(c, id) }
 		replayers["tmpl.hist."+id] = func(a []string) string { return runHistoryReal(a[0]) }
